@@ -125,3 +125,42 @@ def _mk(base, name, **attrs):
 
 KERNELS = [_mk(StateOp, f"StateOp_{op}", op=op, id=f"C10.P.snapshot_op[{op}]", describe=f"BackendRegistryState.{op}: copy the state, apply {OPS[op][0]} to the copy with the caller's arguments, return the copy" + (" and the result" if OPS[op][2] else "") + "; the original state is never written") for op in OPS]
 KERNELS += [_mk(RegistryOp, f"RegistryOp_{op}", op=op, id=f"C10.P.registry_op[{op}]", describe=f"BackendRegistry.{op}: inside `with self.use_lock` the current snapshot is read, BackendRegistryState.{op} is applied to it once, and the snapshot it returns is published (atomic read-modify-write)" + ("; its result is returned" if OPS[op][2] else "")) for op in OPS]
+
+
+class UseBlock(Kernel):
+    prop = "C11"
+    file = "einx/_src/frontend/backend.py"
+    module = "einx._src.frontend.backend"
+    which = "__enter__"
+
+    @property
+    def qual(self):
+        return f"Use/{self.which}"
+
+    def setup(self, eng, bound=None):
+        self.b = z3.Const("backend", Obj)
+
+        def c(name):
+            return SContract(lambda e, p, av, kw, name=name: (p.ghost.__setitem__("calls", list(p.ghost.get("calls", [])) + [(name, list(av), dict(kw))]), SConc(None))[1], f"registry.{name}")
+
+        eng.contracts.update({"self.registry.enter": c("enter"), "self.registry.exit": c("exit")})
+        env = {"self": SRec("Use", backend=SObj(self.b), registry=SObj(z3.Const("registry", Obj)))}
+        if self.which == "__exit__":
+            env.update(exc_type=SObj(z3.Const("exc_type", Obj)), exc_value=SObj(z3.Const("exc_value", Obj)), traceback=SObj(z3.Const("tb", Obj)))
+        return env, [], {}
+
+    def post(self, eng, out, p):
+        if isinstance(out, Raise):
+            eng.oblige("post:no exception", p, z3.BoolVal(False), "post")
+            return
+        rv = getattr(out, "v", None)   # falling off the end of the function: None
+        calls = p.ghost.get("calls", [])
+        want = "enter" if self.which == "__enter__" else "exit"
+        ok = len(calls) == 1 and calls[0][0] == want and len(calls[0][1]) == 1 and isinstance(calls[0][1][0], SObj) and not calls[0][2]
+        eng.oblige(f"post:`with backend:` {'entering' if want == 'enter' else 'leaving (normally or through an exception)'} calls registry.{want} exactly once, with exactly this backend", p, calls[0][1][0].t == self.b if ok else z3.BoolVal(False), "post")
+        if self.which == "__exit__":
+            eng.oblige("post:__exit__ does not swallow exceptions (returns a false value)", p, z3.BoolVal(rv is None or (isinstance(rv, SConc) and not rv.v)), "post")
+
+
+KERNELS += [_mk(UseBlock, "Use_enter", which="__enter__", id="C11.P.use_enter", describe="Use.__enter__: registry.enter(backend) exactly once"),
+            _mk(UseBlock, "Use_exit", which="__exit__", id="C11.P.use_exit", describe="Use.__exit__: registry.exit(backend) exactly once, whatever the exception arguments are, and the exception (if any) propagates")]
